@@ -212,6 +212,10 @@ class Models:
             return sym.lit(v)
         if isinstance(v, SName):
             return v.t
+        if isinstance(v, Obj) and v.cls == "Variable" and "name" in v.fields:
+            return self.name_term(v.fields["name"])          # Variable.__eq__/__hash__ are by name (proved in memo_c)
+        if isinstance(v, Opaque) and v.cls == "Variable":
+            return sym.fn("F_name", sym.Ref, sym.Name)(v.ref)
         raise Unsupported(f"not a name: {v!r}")
 
     def isnum(self, v) -> bool:
@@ -873,10 +877,95 @@ class Models:
                 ip.assign_target(g.target, x, f2)
                 d.items[self.key(ip.ev(e.key, f2))] = ip.ev(e.value, f2)
             return d
-        return ip.schema.symbolic_dict_comprehension(ip, e, fr, self.as_seq_iter(ip, it))
+        S = self.as_seq_iter(ip, it)
+        h = getattr(ip.reg, "keyed_map_hook", None)
+        if h is not None:
+            def at(k, what):
+                kt = k if not isinstance(k, int) else z3.IntVal(k)
+                f2 = Frame(fr.module, {}, fr, fr.finfo)
+                inr = z3.And(kt >= 0, kt < self.len_term(S.n))
+                guarded = not ip.path.entails(inr)
+                if guarded:
+                    ip.path.guards.append(inr)
+                try:
+                    ip.assign_target(g.target, S.get(kt), f2)
+                    return ip.ev(what, f2)
+                finally:
+                    if guarded:
+                        ip.path.guards.pop()
+            pk = sym.fresh("probe", sym.I)
+            probe = at(pk, e.key)
+            if isinstance(probe, (Obj, Opaque)) and probe.cls == "Variable":
+                # keys must be pairwise distinct for the position-function model: accepted when key k is element k of a
+                # vector's `_variables` list (A6)
+                r_ = getattr(probe, "ref", None)
+                distinct = (r_ is not None and z3.is_app(r_) and r_.decl().name() == "ELEM__variables" and r_.num_args() == 2
+                            and z3.simplify(r_.arg(1) == pk).eq(z3.BoolVal(True)))
+                if not distinct:
+                    raise Unsupported("dict keyed by Variables whose keys are not known to be pairwise distinct")
+                # key and value are evaluated once, at the placeholder position pk (under its range guard); the key / value
+                # at another position is obtained by substituting the position term
+                kterm = self.name_term(probe)
+                vprobe = at(pk, e.value)
+
+                def key_at(k):
+                    kt = k if not isinstance(k, int) else z3.IntVal(k)
+                    return z3.substitute(kterm, (pk, kt))
+
+                def val_at(k):
+                    kt = k if not isinstance(k, int) else z3.IntVal(k)
+                    v = self.subst_value(vprobe, pk, kt)
+                    self.relearn_elements(ip, v)
+                    return v
+                return h(ip, S, key_at, val_at, "dict@%d" % e.lineno)
+        return ip.schema.symbolic_dict_comprehension(ip, e, fr, S)
 
     def make_set(self, ip, items):
         return ip.schema.make_set(ip, items)
+
+    def relearn_elements(self, ip, v, depth=0):
+        """Values produced by substitution did not pass through the sequence getters: re-state the class invariant of vector
+        elements (ELEM__variables(vec, k) is a Variable for k in range) and let the unfolder know their class."""
+        if depth > 6:
+            return
+        if isinstance(v, Obj):
+            for x in v.fields.values():
+                self.relearn_elements(ip, x, depth + 1)
+        elif isinstance(v, tuple):
+            for x in v:
+                self.relearn_elements(ip, x, depth + 1)
+        elif isinstance(v, Opaque) and z3.is_app(v.ref) and v.ref.decl().name() == "ELEM__variables" and v.ref.num_args() == 2:
+            vec, kt = v.ref.arg(0), v.ref.arg(1)
+            n = sym.fn("LEN__variables", sym.Ref, sym.I)(vec)
+            inr = z3.And(kt >= 0, kt < n)
+            ip.path.assume(z3.Implies(inr, ip.schema.kinds.is_kind(v.ref, "Variable")))
+            if ip.path.entails(inr):
+                ip.schema.learn_kind(ip, v.ref, "Variable")
+
+    def subst_value(self, v, old, new):
+        """Copy of an engine value with the z3 term `old` replaced by `new` everywhere (allocated objects are re-allocated)."""
+        sub = lambda t: z3.substitute(t, (old, new))
+        if isinstance(v, (int, float, str, bool)) or v is None:
+            return v
+        if isinstance(v, SReal):
+            return SReal(sub(v.t), v.pytype)
+        if isinstance(v, SInt):
+            return SInt(sub(v.t))
+        if isinstance(v, SBool):
+            return SBool(sub(v.t))
+        if isinstance(v, SName):
+            return SName(sub(v.t))
+        if isinstance(v, Opaque):
+            return Opaque(sub(v.ref), v.cls, {k_: self.subst_value(x, old, new) for k_, x in v.known.items()}, v.exact)
+        if isinstance(v, Obj):
+            if v.ref is not None:
+                raise Unsupported("substitution into an object that was already given a reference")
+            return Obj(v.cls, {k_: self.subst_value(x, old, new) for k_, x in v.fields.items()})
+        if isinstance(v, SOpt):
+            return SOpt(sub(v.isnone), self.subst_value(v.val, old, new))
+        if isinstance(v, tuple):
+            return tuple(self.subst_value(x, old, new) for x in v)
+        raise Unsupported(f"positional substitution into {type(v).__name__}")
 
     # ------------------------------------------------------------------ attributes of engine values
     def getattr(self, ip, o, attr, node=None):
